@@ -1,5 +1,6 @@
 import VibeProof.Model.Sql
 import VibeProof.Lemmas.SetOps
+import VibeProof.Generated.Consts
 /-
 C01 — SELECT agrees with the reference SQL semantics on the common subset.
 
@@ -481,5 +482,30 @@ theorem C01_between_is_conjunction (x lo hi : Value) (hx : isIntOrNull x) (hl : 
 example : betweenV (.int 5) (.int 9) (.int 1) false = .ok (.bool false) ∧
     betweenV .null (.int 9) (.int 1) true = .ok .null ∧ betweenV (.int 5) .null (.int 9) false = .ok .null := by
   refine ⟨rfl, rfl, rfl⟩
+
+/-! ### the engine's AND / OR truth tables, rebuilt from the source, are Kleene's -/
+
+def tvOfName : String → Option TV
+  | "T" => some t | "F" => some f | "N" => some u | _ => none
+
+def truthTableOk (op : TV → TV → TV) (tbl : List (String × String × String)) : Bool :=
+  tbl.length == 9 &&
+  tbl.all (fun r => match tvOfName r.1, tvOfName r.2.1, tvOfName r.2.2 with
+    | some a, some b, some c => c == op a b
+    | _, _, _ => false) &&
+  -- all nine operand pairs are present
+  [t, f, u].all (fun a => [t, f, u].all (fun b =>
+    tbl.any (fun r => tvOfName r.1 == some a && tvOfName r.2.1 == some b)))
+
+/-- `LogicalOps::and` / `LogicalOps::or` (evaluator/operators/logical.rs), read arm by arm from the
+tree as it is now, compute Kleene's conjunction / disjunction on all nine operand pairs — the
+tables the model's `and3` / `or3` are (and `C01_kleene_tables` characterises). An arm edited in the
+source breaks this `decide`. -/
+theorem C01_engine_truth_tables :
+    truthTableOk and3 Generated.c01AndTable = true ∧ truthTableOk or3 Generated.c01OrTable = true := by
+  decide
+
+example : truthTableOk and3 [("T","T","T"),("T","F","F"),("T","N","N"),("F","T","F"),("F","F","F"),("F","N","N"),("N","T","N"),("N","F","F"),("N","N","N")] = false := by
+  decide
 
 end VibeProof.C01
